@@ -55,10 +55,24 @@ fn make_conn(client_end: UnixStream) -> Arc<RwLock<Connection>> {
 /// scripted run: the whole reply stream is written in advance, then the server end is
 /// half-closed; afterwards everything the client wrote is collected.
 fn script(inbox: &[u8], ops: &[&str]) -> String {
-    let (client_end, mut server_end) = UnixStream::pair().unwrap();
-    server_end.write_all(inbox).unwrap();
-    server_end.shutdown(std::net::Shutdown::Write).unwrap();
-    let conn = make_conn(client_end.try_clone().unwrap());
+    // a genuine Connection (Connection::with_address over a unix socket: its `stream` is present, as in every real client)
+    // to a fake service that has written the whole reply stream in advance and half-closed
+    static N: std::sync::atomic::AtomicUsize = std::sync::atomic::AtomicUsize::new(0);
+    let dir = std::env::var("VH_TMP").unwrap_or("/verif/.build/tmp".to_string());
+    let _ = std::fs::create_dir_all(&dir);
+    let path = format!("{}/hc-{}-{}.sock", dir, std::process::id(), N.fetch_add(1, std::sync::atomic::Ordering::SeqCst));
+    let _ = std::fs::remove_file(&path);
+    let listener = std::os::unix::net::UnixListener::bind(&path).unwrap();
+    let inbox_v = inbox.to_vec();
+    let server = std::thread::spawn(move || -> Vec<u8> {
+        let (mut s, _) = listener.accept().unwrap();
+        let _ = s.write_all(&inbox_v);
+        let _ = s.shutdown(std::net::Shutdown::Write);
+        let mut sent = Vec::new();
+        let _ = s.read_to_end(&mut sent);
+        sent
+    });
+    let conn = Connection::with_address(&format!("unix:{}", path)).unwrap();
     let mut calls: Vec<VCall> = Vec::new();
     let mut tcalls: Vec<Option<TCall>> = Vec::new();
     let mut outs: Vec<String> = Vec::new();
@@ -117,11 +131,16 @@ fn script(inbox: &[u8], ops: &[&str]) -> String {
     };
     drop(calls);
     drop(tcalls);
+    {
+        // whatever holds the stream now: make sure the fake service sees end-of-stream
+        let mut c = conn.write().unwrap();
+        if let Some(st) = c.stream.as_mut() {
+            let _ = st.shutdown();
+        }
+    }
     drop(conn);
-    let _ = client_end.shutdown(std::net::Shutdown::Both);
-    drop(client_end);
-    let mut sent = Vec::new();
-    let _ = server_end.read_to_end(&mut sent);
+    let sent = server.join().unwrap_or_default();
+    let _ = std::fs::remove_file(&path);
     format!("outs={} sent={} idle={}", if outs.is_empty() { "-".to_string() } else { outs.join(";") }, hex(&sent), idle as u8)
 }
 
